@@ -20,7 +20,8 @@ fn reps(cls: &str, family: u64) -> &'static [u32] {
         ("TRAIL", _) => &[0xdc00, 0xdfff, 0xde00],
         ("D4", _) => &[0x10000, 0x10ffff, 0x1f600, 0x20bb7],
         ("SURR", _) => &[0xd800, 0xdfff, 0xdbff, 0xdc00],
-        ("BIG", _) => &[0x110000, 0xffff_ffff, 0x7fff_ffff],
+        // beyond U+10FFFF - also values whose low 21 bits alone would be a perfectly good character
+        ("BIG", _) => &[0x110000, 0xffff_ffff, 0x7fff_ffff, 0x0020_0041, 0x8001_f600, 0x0100_0061, 0x0030_00e9],
         _ => &[0],
     }
 }
